@@ -6,6 +6,7 @@ Import ListNotations.
 Open Scope string_scope.
 
 Definition listpre (k : string) : string := if String.eqb k "gamma_pl_list" then "gamma_pl_%s" else k.
+Definition kname_id (k : string) : string := k.
 Definition get_block (o : option block) : block := match o with Some b => b | None => Block [] [] [] [] end.
 
 Definition cosmo_block := Eval vm_compute in get_block (read_block src_CosmoParam_args2kwargs src_CosmoParam_kwargs2args src_CosmoParam_param_list).
@@ -19,7 +20,7 @@ Lemma lens_read : read_block src_LensParam_args2kwargs src_LensParam_kwargs2args
 Lemma kin_read : read_block src_KinParam_args2kwargs src_KinParam_kwargs2args src_KinParam_param_list = Some kin_block. Proof. vm_compute. reflexivity. Qed.
 Lemma source_read : read_block src_SourceParam_args2kwargs src_SourceParam_kwargs2args src_SourceParam_param_list = Some source_block. Proof. vm_compute. reflexivity. Qed.
 
-Lemma cosmo_ok : block_ok listpre cosmo_block = true. Proof. vm_compute. reflexivity. Qed.
-Lemma lens_ok : block_ok listpre lens_block = true. Proof. vm_compute. reflexivity. Qed.
-Lemma kin_ok : block_ok listpre kin_block = true. Proof. vm_compute. reflexivity. Qed.
-Lemma source_ok : block_ok listpre source_block = true. Proof. vm_compute. reflexivity. Qed.
+Lemma cosmo_ok : block_ok kname_id listpre cosmo_block = true. Proof. vm_compute. reflexivity. Qed.
+Lemma lens_ok : block_ok kname_id listpre lens_block = true. Proof. vm_compute. reflexivity. Qed.
+Lemma kin_ok : block_ok kname_id listpre kin_block = true. Proof. vm_compute. reflexivity. Qed.
+Lemma source_ok : block_ok kname_id listpre source_block = true. Proof. vm_compute. reflexivity. Qed.
